@@ -57,20 +57,27 @@ Print Assumptions zone_slot_verification_is_key_equality.
 (* The ancestor walk every lookup, retry key and reset rests on (the [suffixes]
    of hit_only_exact_or_ancestor_zone, single_probe_key, streak_resets) IS the
    loop of walkFailureZones as the translator reads it today, with miekg's
-   dns.NextLabel from the module cache: started on the presentation string of
-   an escape-free name (labels non-empty, no '.', no backslash; root = "."), it
-   ends by return, having handed the callback the presentation strings of
-   [suffixes n] in order, closest first, and stopped at the first one the
-   callback refused, else at the root.  The callback is a pure function of the
-   zone string; fuel: more than the string's length. *)
+   dns.NextLabel from the module cache: started on the presentation string of a
+   name — labels non-empty, a dot inside a label written \. and a backslash \\,
+   every other octet literally; root = "." — it ends by return, having handed the
+   callback the presentation strings of [suffixes n] in order, closest first,
+   and stopped at the first one the callback refused, else at the root.  An
+   escaped dot is never a cut (seeded C13-4 / C13-9 break this lemma).  With
+   dns.CanonicalName in front (ASCII reading of the translator's library) the
+   callback sees the FOLDED ancestors [suffixes (canon_name n)] for any spelling
+   of the letters.  The callback is a pure function of the zone string; fuel:
+   more than the string's length. *)
 Theorem zone_walk_is_the_translated_go_loop :
-  (forall fuel visit n, plain_name n -> (length (present n) < fuel)%nat ->
+  (forall fuel visit n, wf_name n -> (length (present n) < fuel)%nat ->
      go_walkFailureZones_loop1_run fuel visit (present n) =
        (GoRet tt, (visit, present (walk_stop visit (suffixes n))))) /\
+  (forall fuel visit n, wf_name n -> (length (present n) < fuel)%nat ->
+     go_walkFailureZones_loop1_run fuel visit (go_canonical_name_ascii (present n)) =
+       (GoRet tt, (visit, present (walk_stop visit (suffixes (canon_name n)))))) /\
   (forall visit zs z, walk_stop visit (zs ++ [z]) =
      match find (fun x => negb (visit (present x))) zs with Some y => y | None => z end) /\
   (forall n, exists zs, suffixes n = zs ++ [[]]).
-Proof. exact (conj gen_zone_walk (conj walk_stop_find suffixes_snoc_root)). Qed.
+Proof. exact (conj gen_zone_walk (conj gen_zone_walk_canonical (conj walk_stop_find suffixes_snoc_root))). Qed.
 Print Assumptions zone_walk_is_the_translated_go_loop.
 
 (* NewFailureCache admits only valid bounds *)
@@ -259,8 +266,8 @@ Print Assumptions disabled_is_inert.
        ONE request of that group in flight, for any number of requests and EVERY
        interleaving of arrivals, leader completions with any outcome (shared
        failure recorded, request-local failure, recovery) and follower wake-ups.
-   Not modelled: the 15 s generation timeout (an abandoned leader; the code then
-   sheds the followers instead of re-electing). *)
+   The schedules include the waitgroup's generation timeout (ATimeout: an abandoned
+   leader; see abandoned_leader_is_never_replaced below). *)
 Theorem single_probe_key : forall H m now cl z p t cd sc h,
   (forall p' q, p = q ++ p' -> p' <> [] -> load_zone H m (mk_zkey (canon_name (p' ++ z)) cl) = None) ->
   (forall e, load_question H m (norm_qkey (mk_qkey (p ++ z) t cl cd sc)) = Some e -> e_retry e <= now) ->
@@ -272,6 +279,28 @@ Print Assumptions single_probe_key.
 Theorem single_probe : forall n sched, (in_flight (probe_run (probe_init n) sched) <= 1)%nat.
 Proof. exact single_probe_in_flight. Qed.
 Print Assumptions single_probe.
+
+(* The waitgroup's generation bound (15 s): when it passes before the leader is
+   done, the leader stays registered and in flight (single_probe above already
+   quantifies over schedules with ATimeout steps).  A follower of a timed-out
+   generation that wakes is served from the failure cache or shed — never elected,
+   regrouped or sent downstream; a timeout changes no request and no group entry;
+   and a new probe is elected only when nobody is in flight, so an abandoned
+   leader is never replaced or doubled. *)
+Theorem abandoned_leader_is_never_replaced :
+  (forall st r g regs, nth_error (ps_reqs st) r = Some (PFollower g regs) -> g_timed (gen_of st g) = true ->
+     let st' := probe_step st (AWake r) in
+     (nth_error (ps_reqs st') r = Some PServed \/ nth_error (ps_reqs st') r = Some PShed) /\
+     ps_elected st' = ps_elected st /\ ps_group st' = ps_group st /\ ps_gens st' = ps_gens st) /\
+  (forall st g, ps_reqs (probe_step st (ATimeout g)) = ps_reqs st /\ ps_group (probe_step st (ATimeout g)) = ps_group st /\
+     ps_elected (probe_step st (ATimeout g)) = ps_elected st /\ ps_fs (probe_step st (ATimeout g)) = ps_fs st) /\
+  (forall n sched a, let st := probe_run (probe_init n) sched in
+     ps_elected (probe_step st a) <> ps_elected st -> in_flight st = O).
+Proof.
+  exact (conj timed_follower_is_terminal (conj timeout_changes_no_request
+          (fun n sched a => election_only_when_idle _ a (probe_inv_run n sched)))).
+Qed.
+Print Assumptions abandoned_leader_is_never_replaced.
 
 (* Cached failures are terminal for the wrapper in front of the cache (dns64):
    the only SERVFAIL it follows up with a corresponding A query is a shared
